@@ -132,6 +132,7 @@ def run(prog, chk):
 
     # ---- R12.5 ----------------------------------------------------------------------------
     _rule_builtin_args(prog, chk, R)
+    _rule_nullable_links(prog, chk, R)
     _rule_inplace_shrink(prog, chk, R, owners, dtor)
     _rule_slot_overwrite(prog, chk, R)
     dels = _deleter_lambdas(prog, R)
@@ -230,6 +231,59 @@ def _rule_builtin_args(prog, chk, R):
            'the predeclaration loop must reject a user function whose name is a built-in gate (the evaluator dispatches gates by name before user functions)',
            key='gate-names-reserved')
     chk.ob('R12.6', analyse, analyse.ln, arity, 'calls are checked against the callee\'s parameter count', key='call-arity-checked')
+
+
+def _rule_nullable_links(prog, chk, R):
+    """Contradiction rule (Engler): an owning link of the syntax tree that the evaluator tests for null somewhere (so it believes
+    it can be null: bodies of abstract methods, defaulted constructors, empty destructors …) is tested before EVERY
+    dereference.  Links never tested anywhere are outside the rule (the parser guarantees them)."""
+    chk.rule('R12.9', 'a syntax-tree link that is null-tested somewhere in the evaluator is null-tested before every dereference')
+    evfns = [f for f in prog.functions if f.body and f.file.endswith('runtime_evaluator.cpp')]
+
+    def link(e):
+        e = SX.strip(e)
+        if SX.is_node(e) and e.get('k') == 'member' and 'unique_ptr' in (e.get('t') or '') and (e.get('q') or '').startswith('bloch::compiler::'):
+            return e
+        return None
+    # the belief "this link can be null" may be stated anywhere in the program (the analyser tests method bodies to recognise
+    # abstract methods; the evaluator tests constructor bodies …)
+    tested = set()
+    for f in prog.functions:
+        if not f.body:
+            continue
+        for n in SX.walk(f.body, into_lambdas=False):
+            if n['k'] == 'mcall' and SX.short(n.get('callee', '')) == 'operator bool' and link(n.get('obj')):
+                tested.add(link(n['obj'])['q'])
+            cp = SX.cmp_parts(n) if n['k'] in ('bin', 'opcall') else None
+            if cp and cp[0] in ('==', '!=') and any(SX.is_node(SX.strip(x)) and SX.strip(x).get('k') == 'nullptr' for x in cp[1:]):
+                for x in cp[1:]:
+                    if link(x):
+                        tested.add(link(x)['q'])
+    nd = 0
+    for f in evfns:
+        g = None
+        for n in SX.walk(f.body, into_lambdas=False):
+            if not (n['k'] == 'opcall' and n.get('op') in ('->', '*') and n.get('args') and link(n['args'][0])):
+                continue
+            m = link(n['args'][0])
+            if m['q'] not in tested:
+                continue
+            nd += 1
+            g = g or prog.cfg(f)
+            node = _node_of(g, n)
+            txt = SX.show(m)
+            ok = False
+            if node is not None:
+                for ce, pol, _ in g.guards(node):
+                    c = SX.strip(ce)
+                    if SX.is_node(c) and c.get('k') == 'mcall' and SX.short(c.get('callee', '')) == 'operator bool' and SX.show(SX.strip(c.get('obj'))) == txt and pol:
+                        ok = True
+                    if SX.is_node(c) and c.get('k') == 'un' and c.get('op') == '!' and txt in SX.show(c) and not pol:
+                        ok = True
+            chk.ob('R12.9', f, n.get('ln', f.ln), ok,
+                   '%s is dereferenced; the evaluator tests this link for null elsewhere (%s can be null: abstract method, defaulted constructor …), so the dereference needs the '
+                   'dominating test too' % (txt, m['q'].split('::')[-2] + '::' + m['q'].split('::')[-1]), key='link:%s:%s' % (f.short, m['q'].split('::')[-2]))
+    chk.count('dereferences of nullable syntax-tree links', nd, 4)
 
 
 def _rule_inplace_shrink(prog, chk, R, owners, dtor):
